@@ -1,7 +1,6 @@
 package codec
 
 import (
-	"reflect"
 	"testing"
 
 	"github.com/vapourismo/knx-go/knx/cemi"
@@ -83,6 +82,7 @@ type ldataRec struct {
 	Size  int    `json:"size"`  // cemi.Size
 	Panic int    `json:"panic"` // the encoder or decoder panicked
 	GD    LF     `json:"gd"`    // fields decoded by cemi.Unpack from GB
+	GDU   LF     `json:"gdu"`   // the same bytes decoded into a receiver that already held an earlier frame (= gd when that was not done)
 	GOK   int    `json:"gok"`   // decoder accepted
 	GN    int    `json:"gn"`    // consumed length
 }
@@ -91,7 +91,7 @@ type ldataRec struct {
 var dirtyLData cemi.LData
 
 func logLData(o *Out, f LF) {
-	r := ldataRec{K: "ldata", F: f, GB: []int{}, GD: LF{Info: []int{}, Data: []int{}}}
+	r := ldataRec{K: "ldata", F: f, GB: []int{}, GD: LF{Info: []int{}, Data: []int{}}, GDU: LF{Info: []int{}, Data: []int{}}}
 	p, _ := Guarded(func() {
 		m := f.message()
 		r.Size = int(cemi.Size(m))
@@ -109,11 +109,11 @@ func logLData(o *Out, f LF) {
 		r.GN = int(n)
 		if err == nil {
 			if g, ok := fieldsOf(out); ok {
-				r.GD, r.GOK = g, 1
+				r.GD, r.GDU, r.GOK = g, g, 1
 			}
 		}
 		// ... and once more into a receiver that already holds the previously decoded frame (a reused value must end
-		// up exactly as a fresh one); a difference replaces the decoded fields, so the judge sees it
+		// up exactly as a fresh one): logged as gdu, the judge wants gdu = gd
 		if err == nil && r.GOK == 1 && len(buf) > 1 {
 			in2 := append([]byte(nil), buf[1:]...)
 			if _, e2 := dirtyLData.Unpack(in2); e2 == nil {
@@ -126,8 +126,11 @@ func logLData(o *Out, f LF) {
 				default:
 					m2 = &cemi.LDataCon{LData: dirtyLData}
 				}
-				if g2, ok := fieldsOf(m2); ok && !reflect.DeepEqual(g2, r.GD) {
-					r.GD = g2
+				for i := range in2 {
+					in2[i] = 0x77
+				}
+				if g2, ok := fieldsOf(m2); ok {
+					r.GDU = g2
 				}
 			}
 		}
